@@ -521,7 +521,8 @@ int vrt_pthread_join(pthread_t t, void **ret)
 	int i;
 	if (!vrt_active)
 		return pthread_join(t, ret);
-	for (i = 1; i < nthreads; i++)
+	/* newest first: glibc re-uses the pthread_t value of an exited and joined thread */
+	for (i = nthreads - 1; i >= 1; i--)
 		if (T[i].used && pthread_equal(T[i].pt, t)) {
 			vrt_point();
 			vrt_log("JOIN T%d", i);
